@@ -26,7 +26,8 @@ F(name, ok) == IF ok THEN {} ELSE {name}
 ActionFails(e) ==
   CASE e.name = "Restore" -> {}
     [] e.name = "Split" /\ e.ret ->
-         IF ~SplitOK_Shape THEN {"SplitOK_Shape"} ELSE {c \in SplitOK_Clauses : ~SplitOK_Holds(c)}
+         (IF ~SplitOK_Shape THEN {"SplitOK_Shape"} ELSE {c \in SplitOK_Clauses : ~SplitOK_Holds(c)})
+         \cup F("SplitOK_ShrinksExact", e.shrinkOK)        \* the same comparison made in log space by the observer
     [] e.name = "Split" /\ ~e.ret ->
          F("SplitRefused_Frame", SplitRefused_Frame) \cup F("SplitRefused_AllBlocked", SplitRefused_AllBlocked(e.allow))
     [] e.name = "Trim" /\ e.ret ->
